@@ -31,6 +31,21 @@ PROPS = {
                  "duplicates, overload window [from, from+len). Non-trivial: a re-offer round was needed, or the queue overflowed while traffic of >=2 actors arrived in the overload window. Distinct = hash of the case."),
         "assumptions": ["offers that hit a full ingest channel for 200 ms while the node is blocked count as lost (a timed-out peer)", "the apply loop is played by the harness (same call)"],
     },
+    "C11": {
+        "level": "exploration",
+        "workers": 16,
+        "engine": "E3-live",
+        "technique": "differential / model-based property testing against a live agent: generated (query template, parameter) x generated histories of local (HTTP) and remote (real origin nodes, QUIC broadcast frames, held back and reordered) transactions over three joined tables; oracle: the user's SELECT re-evaluated on the node database vs the client-side replay of the NDJSON event stream, vs the query table of the subscription database, vs the snapshot served to a second subscriber; per-event stream rules (ids +1, insert/update/delete consistent with the replay, no update event carrying unchanged cells)",
+        "level_text": ("12 query templates (single-table filters with comparison / IS NULL / OR, expression columns, INNER joins with and without aliases, LEFT joins incl. ON with an extra predicate and a nullable-side join key, "
+                       "a three-table join; composite and text keys) with generated constants; histories of 2-9 transactions before subscribing and 1-3 (quick) / 1-6 (thorough) phases of 2-6 transactions of 1-3 "
+                       "statements (upserts, single-column updates, deletes, primary-key moves, multi-table) executed locally through /v1/transactions or on one of two real origin nodes whose broadcasts reach the node "
+                       "over QUIC at once or held back to the end of the phase in reverse order; after subscribing and after every phase the harness polls (positive, 8 s ceiling) until the remote versions are applied and "
+                       "stream replay = query table = SELECT on the database; finally a second subscriber's snapshot must equal the SELECT too"),
+        "level_note": "the matcher batches candidates for up to 600 ms: equality is awaited, a result that does not become equal within 8 s of quiet (13x the batching window) is the violation; remote changes not applied within that time are reported as infrastructure (exit 2), never as violation; aggregates, sub-selects and compound selects are outside the listed 'supported queries' and not generated",
+        "rule": ("generated as above. Non-trivial: the query result changed in at least one phase, at least two change events were received and at least one of them was an update or delete. Distinct = hash of the case. "
+                 "Failures matching the known finding C11-left-join-left-only-rows-not-maintained (LEFT JOIN query, results differ only in rows whose nullable-side columns are all NULL) are tolerated and counted."),
+        "assumptions": ["values are integers, text and NULL (rendered identically by the API and the oracle)", "a case ends at its first tolerated known-finding hit (the stale row would poison later comparisons)"],
+    },
     "C15": {
         "level": "exploration",
         "workers": 16,
